@@ -222,12 +222,13 @@ class Violin(object):
         # Compute kde
         for cn, se in data.items():
             notnull = se.notnull() & np.isfinite(se.values)
-            if notnull.sum() <= 2:
+            sen = se[notnull]
+            if notnull.sum() <= 2 or sen.max() - sen.min() < 1e-10:
+                # No density profile for too few or constant values
                 kde_x.loc[:, cn] = np.nan
                 kde_y.loc[:, cn] = np.nan
                 continue
 
-            sen = se[notnull]
             values = sen.values
             x0, x1 = sen.min(), sen.max()
 
